@@ -2,6 +2,7 @@ package tree
 
 import (
 	"IG-Parser/core/shared"
+	"fmt"
 	"log"
 	"reflect"
 	"strconv"
@@ -189,6 +190,13 @@ func (s *Statement) PrintTree(parent *Node, printFlat bool, printBinary bool, in
 	if childrenPresent {
 		out.WriteString(TREE_PRINTER_LINEBREAK)
 		out.WriteString(TREE_PRINTER_COLLECTION_CLOSE)
+	} else {
+		// The preceding members are terminated with a separator; close the object with an empty
+		// collection of children if no component produced output (e.g., statement consisting of properties only)
+		out.WriteString(TREE_PRINTER_KEY_CHILDREN)
+		out.WriteString(TREE_PRINTER_EQUALS)
+		out.WriteString(TREE_PRINTER_COLLECTION_OPEN)
+		out.WriteString(TREE_PRINTER_COLLECTION_CLOSE)
 	}
 	// Close entire tree
 	out.WriteString(TREE_PRINTER_LINEBREAK)
@@ -244,7 +252,7 @@ func (n *Node) PrintNodeTree(stmt *Statement, printFlat bool, printBinary bool, 
 					}
 				}
 				// Write actual compound entry including left and right shared parts, including escaping of selected symbols
-				out.WriteString(shared.EscapeSymbolsForExport(outEntry))
+				out.WriteString(escapeForTreeOutput(outEntry))
 				out.WriteString("\"")
 
 				// Ensure that entry is closed
@@ -395,6 +403,27 @@ func (n *Node) PrintNodeTree(stmt *Statement, printFlat bool, printBinary bool, 
 }
 
 /*
+Escapes a value for inclusion as string in the generated JSON output: substitutes quotation marks
+(see shared.EscapeSymbolsForExport), and escapes backslashes and control characters (e.g., tabs, line breaks),
+which must not occur unescaped in JSON strings.
+*/
+func escapeForTreeOutput(value string) string {
+	value = shared.EscapeSymbolsForExport(value)
+	b := strings.Builder{}
+	for _, r := range value {
+		switch {
+		case r == '\\':
+			b.WriteString("\\\\")
+		case r < 0x20:
+			b.WriteString(fmt.Sprintf("\\u%04x", r))
+		default:
+			b.WriteRune(r)
+		}
+	}
+	return b.String()
+}
+
+/*
 Appends shared and private nodes to D3-consumable JSON output string based on related properties, as well as own private nodes.
 The shared and private property nodes are combined in the order "shared, private".
 Note: In flat output mode only primitive private properties are included in the rendered output.
@@ -529,16 +558,16 @@ func (n *Node) appendPropertyNodes(stringToPrepend string, stmt *Statement, prin
 								}
 
 								// Append each entry individually as string
-								stringToAppendTo.WriteString(shared.EscapeSymbolsForExport(v.Entry.(string)))
+								stringToAppendTo.WriteString(escapeForTreeOutput(v.Entry.(string)))
 								entryAdded = true
 							}
 						}
 					} else if !privateNode.HasPrimitiveEntry() {
 						// Embedded statement (is printed as flat string, e.g., A: actor I: action, Cac: context)
-						stringToAppendTo.WriteString(privateNode.Entry.(*Statement).StringFlatStatement(true))
+						stringToAppendTo.WriteString(escapeForTreeOutput(privateNode.Entry.(*Statement).StringFlatStatement(true)))
 					} else {
 						// Primitive properties
-						stringToAppendTo.WriteString(shared.EscapeSymbolsForExport(privateNode.Entry.(string)))
+						stringToAppendTo.WriteString(escapeForTreeOutput(privateNode.Entry.(string)))
 					}
 				} else {
 					// If no flat printing, append complete nested tree structure (property tree)
@@ -587,7 +616,7 @@ func (n *Node) appendAnnotations(stringToPrepend string, prependSeparator bool, 
 		stringToAppendTo.WriteString(TREE_PRINTER_KEY_ANNOTATIONS)
 		stringToAppendTo.WriteString(TREE_PRINTER_EQUALS)
 		stringToAppendTo.WriteString("\"")
-		stringToAppendTo.WriteString(shared.EscapeSymbolsForExport(n.GetAnnotations().(string)))
+		stringToAppendTo.WriteString(escapeForTreeOutput(n.GetAnnotations().(string)))
 		stringToAppendTo.WriteString("\"")
 		if appendSeparator {
 			stringToAppendTo.WriteString(", ")
@@ -616,7 +645,7 @@ func (n *Node) appendDegreeOfVariability(stringToPrepend string, prependSeparato
 		stringToAppendTo.WriteString(TREE_PRINTER_KEY_COMPLEXITY)
 		stringToAppendTo.WriteString(TREE_PRINTER_EQUALS)
 		stringToAppendTo.WriteString("\"")
-		stringToAppendTo.WriteString(shared.EscapeSymbolsForExport(strconv.Itoa(retVal)))
+		stringToAppendTo.WriteString(escapeForTreeOutput(strconv.Itoa(retVal)))
 		stringToAppendTo.WriteString("\"")
 		if appendSeparator {
 			stringToAppendTo.WriteString(", ")
